@@ -223,9 +223,21 @@ func c18GenTree(r *core.Rand) *tree.Tree {
 		// a name that is also a glob pattern, reached through a link, next to
 		// the name the pattern would match (known finding K9: the resolved
 		// target is used as an include pattern as it is)
-		put("q[1]", tree.File, "")
-		put("q1", tree.File, "")
-		put("lq", tree.Symlink, "q[1]")
+		switch r.Intn(3) {
+		case 0:
+			put("q[1]", tree.File, "")
+			put("q1", tree.File, "")
+			put("lq", tree.Symlink, "q[1]")
+		case 1:
+			// ... or starts with the exclusion marker of a pattern list
+			put("!imp", tree.File, "")
+			put("lq", tree.Symlink, "!imp")
+		default:
+			// ... or ends in white space, which a pattern list trims
+			put("data ", tree.File, "")
+			put("data", tree.File, "")
+			put("lq", tree.Symlink, "data ")
+		}
 	}
 	if r.P(1, 25) {
 		// the library layout: many links in one directory, each the head of
@@ -244,6 +256,16 @@ func c18GenTree(r *core.Rand) *tree.Tree {
 		// a link whose target holds a component longer than NAME_MAX: a legal
 		// link text, it names nothing (the lookup fails with ENAMETOOLONG)
 		put(inDir(core.Pick(r, dirs), "lng"), tree.Symlink, core.Pick(r, []string{strings.Repeat("a", 300), "a/" + strings.Repeat("n", 256), "/" + strings.Repeat("x", 255) + "y/z"}))
+	}
+	if r.P(1, 25) {
+		// a colon in names behind a link (a volume separator elsewhere, an
+		// ordinary byte here)
+		put("logs", tree.Dir, "")
+		put("logs/10:30", tree.Dir, "")
+		put("logs/10:30/out", tree.File, "")
+		put("logs/c:", tree.File, "")
+		put("latest", tree.Symlink, core.Pick(r, []string{"logs/10:30/out", "/logs/10:30/out", "logs/c:"}))
+		put("lcd", tree.Symlink, "logs/10:30")
 	}
 	if r.P(1, 6) { // a link to a directory with two files: the shared-prefix shape
 		put("t", tree.Dir, "")
@@ -286,7 +308,7 @@ func c18GenRequests(r *core.Rand, t *tree.Tree) []string {
 	idx := refs.Index(t)
 	// a long chain is requested near its head, so that the walk crosses
 	// 37..43 links: the limit itself is part of what is explored
-	if e := t.Get("lq"); e != nil && e.Target == "q[1]" && r.P(3, 4) {
+	if e := t.Get("lq"); e != nil && (e.Target == "q[1]" || e.Target == "!imp" || e.Target == "data ") && r.P(3, 4) {
 		out = append(out, "lq")
 	}
 	for _, e := range t.Entries {
@@ -296,6 +318,9 @@ func c18GenRequests(r *core.Rand, t *tree.Tree) []string {
 	}
 	if r.P(1, 40) {
 		out = append(out, core.Pick(r, []string{strings.Repeat("q", 300), "a/" + strings.Repeat("q", 256) + "/x"}))
+	}
+	if e := t.Get("lcd"); e != nil && e.Target == "logs/10:30" && r.P(3, 4) {
+		out = append(out, core.Pick(r, []string{"latest", "lcd/out", "lcd", "/latest"}))
 	}
 	if e := t.Get("w/l20"); e != nil && e.Type == tree.Symlink && r.P(3, 4) {
 		out = append(out, core.Pick(r, []string{"w/*", "w/l*", "w/l??", "*/l*"}))
@@ -763,7 +788,7 @@ func init() {
 			"fsutil.FollowLinks runs on an FS wrapper that counts Walk calls (and fails the call past the step bound 64*(requests+1)*(entries+1)*40); its result is checked for order, prefix-freeness, root collapse and coverage of every symlink traversed / final location reached by the independent chroot-style resolver (refs.Resolve, Linux semantics, 40-link limit) for plain requests and for every match of a last-component wildcard; then the tree is transferred with FollowPaths=requests by the real Send/Receive into an empty directory and every plain request that resolves to an entry in the source must resolve in the copy to the same path, type and bytes. " +
 			"non-trivial = the model traverses at least one symlink for some request; distinct by (tree, request list, source kind) fingerprint",
 		Assumptions: []string{
-			"entry names and link targets contain no wildcard characters (* ? [ \\), except the shape q[1] / q1 / lq -> q[1] that exhibits known finding K9; requests are lexically clean (no '.'/'..' components except the request '.')",
+			"entry names and link targets contain no wildcard characters (* ? [ \\), except the shapes q[1] / q1 / lq -> q[1], lq -> '!imp' and lq -> 'data ' that exhibit known finding K9; requests are lexically clean (no '.'/'..' components except the request '.')",
 			"'covered' = an element equals the location, is an ancestor of it, or is a wildcard pattern whose components match its leading components (the list is used as include patterns)",
 			"a request whose walk ends at a missing component, at a non-directory in the middle, or with ELOOP demands only the symlinks traversed (first 40)",
 			"wildcards in middle components: only termination, order and prefix-freeness are demanded",
@@ -1039,7 +1064,7 @@ func c18Run(c *core.Ctx) *core.Result {
 			switch {
 			case m.ReqLexDotDot[q]:
 				sig = "followlinks-lexical-dotdot"
-			case strings.ContainsAny(sr.Final, "*?["):
+			case strings.ContainsAny(sr.Final, "*?[") || strings.HasPrefix(sr.Final, "!") || strings.TrimSpace(sr.Final) != sr.Final:
 				sig = "followpaths-target-read-as-pattern"
 			case m.ReqCutByLinkGuard[q]:
 				sig = "D9-followlinks-guard"
